@@ -222,6 +222,11 @@ pub struct SerRecord {
     pub sink_refusals: usize,
     pub sink_calls: usize,
     pub other_calls: Vec<&'static str>,
+    /// serialize_none / serialize_unit received (a format that distinguishes them)
+    pub got_none: usize,
+    pub got_unit: usize,
+    /// serialize_struct(name, ..) with one string field: (struct name, field key, field text)
+    pub structs: Vec<(String, String, Option<String>)>,
 }
 
 pub struct RecSerializer<'a> {
@@ -245,7 +250,7 @@ impl<'a> ser::Serializer for RecSerializer<'a> {
     type SerializeTupleStruct = ser::Impossible<(), PeerError>;
     type SerializeTupleVariant = ser::Impossible<(), PeerError>;
     type SerializeMap = ser::Impossible<(), PeerError>;
-    type SerializeStruct = ser::Impossible<(), PeerError>;
+    type SerializeStruct = StructRec<'a>;
     type SerializeStructVariant = ser::Impossible<(), PeerError>;
 
     fn is_human_readable(&self) -> bool {
@@ -309,13 +314,15 @@ impl<'a> ser::Serializer for RecSerializer<'a> {
         unexpected!(self, "serialize_bytes")
     }
     fn serialize_none(self) -> Result<(), PeerError> {
-        unexpected!(self, "serialize_none")
+        self.rec.got_none += 1;
+        Ok(())
     }
     fn serialize_some<T: ?Sized + Serialize>(self, _: &T) -> Result<(), PeerError> {
         unexpected!(self, "serialize_some")
     }
     fn serialize_unit(self) -> Result<(), PeerError> {
-        unexpected!(self, "serialize_unit")
+        self.rec.got_unit += 1;
+        Ok(())
     }
     fn serialize_unit_struct(self, _: &'static str) -> Result<(), PeerError> {
         unexpected!(self, "serialize_unit_struct")
@@ -344,10 +351,33 @@ impl<'a> ser::Serializer for RecSerializer<'a> {
     fn serialize_map(self, _: Option<usize>) -> Result<Self::SerializeMap, PeerError> {
         unexpected!(self, "serialize_map")
     }
-    fn serialize_struct(self, _: &'static str, _: usize) -> Result<Self::SerializeStruct, PeerError> {
-        unexpected!(self, "serialize_struct")
+    fn serialize_struct(self, name: &'static str, _: usize) -> Result<Self::SerializeStruct, PeerError> {
+        self.rec.structs.push((name.to_string(), String::new(), None));
+        Ok(StructRec { rec: self.rec })
     }
     fn serialize_struct_variant(self, _: &'static str, _: u32, _: &'static str, _: usize) -> Result<Self::SerializeStructVariant, PeerError> {
         unexpected!(self, "serialize_struct_variant")
+    }
+}
+
+/// Records the single string field of a struct (how serde_json's arbitrary-precision Number serializes itself)
+pub struct StructRec<'a> {
+    rec: &'a mut SerRecord,
+}
+
+impl<'a> ser::SerializeStruct for StructRec<'a> {
+    type Ok = ();
+    type Error = PeerError;
+    fn serialize_field<T: ?Sized + Serialize>(&mut self, key: &'static str, value: &T) -> Result<(), PeerError> {
+        let mut inner = SerRecord::default();
+        value.serialize(RecSerializer { rec: &mut inner, human_readable: true, sink: SinkSpec::Unbounded })?;
+        if let Some(last) = self.rec.structs.last_mut() {
+            last.1 = key.to_string();
+            last.2 = inner.serialized_str.or(inner.collected);
+        }
+        Ok(())
+    }
+    fn end(self) -> Result<(), PeerError> {
+        Ok(())
     }
 }
